@@ -90,6 +90,12 @@ class ModuleVal:
         self.name, self.attrs = name, attrs
 
 
+class StarredSeq:
+    """`*seq` argument pack of symbolic length"""
+    def __init__(self, arr):
+        self.arr = arr
+
+
 class Frame:
     def __init__(self, mod, locs, cls=None, closure=None, qual=''):
         self.mod, self.locals, self.cls, self.closure, self.qual = mod, locs, cls, closure, qual
@@ -280,6 +286,8 @@ class Interp:
             nm = self._DUNDER.get(type(op))
             if nm is None:
                 raise Unsupported('operator on object')
+            if isinstance(a, SObj) and f'__{nm}__' in a.attrs:
+                return self.call(a.attrs[f'__{nm}__'], [b], {})
             if isinstance(a, SObj):
                 for cand in ([f'__i{nm}__'] if inplace else []) + [f'__{nm}__']:
                     m = self.find_method_obj(a, cand)
@@ -546,6 +554,8 @@ class Interp:
                 return a == b
             sort = z3.RealSort() if real else z3.IntSort()
             return to_z3(a, sort) == to_z3(b, sort)
+        if isinstance(a, SObj) and '__eq__' in a.attrs:
+            return self.call(a.attrs['__eq__'], [b], {})
         if isinstance(a, SObj) and isinstance(b, SObj):
             m = self.find_method_obj(a, '__eq__')
             if m is not None:
@@ -1091,6 +1101,8 @@ class Interp:
         m = builtins_model.method_of(self, obj, name)
         if m is not None:
             return m
+        if isinstance(obj, Opq):
+            return Opq(z3.Function(f'attr!{name}', U, U)(obj.t))      # attribute of an opaque value: uninterpreted
         raise Unsupported(f'attribute {name} of {type(obj).__name__}')
 
     def setattr(self, obj, name, val):
@@ -1143,6 +1155,8 @@ class Interp:
                     m2 = source.get_module(rel)
                     if m2 is not mod and (imp[2] in m2.functions or imp[2] in m2.classes or imp[2] in m2.assigns or imp[2] in m2.imports):
                         return self.lookup_global(m2, imp[2])
+                if f'import:{imp[1]}.{imp[2]}' in self.hooks:
+                    return Builtin(self.hooks[f'import:{imp[1]}.{imp[2]}'], f'{imp[1]}.{imp[2]}')
                 mv = builtins_model.from_import(imp[1], imp[2])
                 if mv is not None:
                     return mv
@@ -1308,6 +1322,15 @@ class Interp:
             it = self.eval(e.generators[0].iter)
             if isinstance(it, SArr) and not isinstance(it.n, int):
                 return self._comp_elementwise(e, it)
+            if isinstance(it, _Iter) and it.kind == 'zip' and all(isinstance(p, SArr) for p in it.parts) \
+                    and any(not isinstance(p.n, int) for p in it.parts):
+                n = it.parts[0].n
+                for p in it.parts[1:]:
+                    zn, zm = to_z3(n), to_z3(p.n)
+                    n = z3.simplify(z3.If(zn <= zm, zn, zm))
+                kinds = [p.kind for p in it.parts]
+                leaves = [l for p in it.parts for l in p.leaves]
+                return self._comp_elementwise(e, SArr(n, leaves, ('tuple', kinds, None), False))
             out = []
             fr = self.frames[-1]
             for item in self.iter_concrete(it):
@@ -1398,7 +1421,11 @@ class Interp:
         args = []
         for a in e.args:
             if isinstance(a, ast.Starred):
-                args.extend(self.iter_concrete(self.eval(a.value)))
+                sv = self.eval(a.value)
+                if isinstance(sv, SArr) and not isinstance(sv.n, int):
+                    args.append(StarredSeq(sv))      # *seq of symbolic length: only accepted by primitives that expect it
+                else:
+                    args.extend(self.iter_concrete(sv))
             else:
                 args.append(self.eval(a))
         kwargs = {}
@@ -1550,7 +1577,13 @@ class Interp:
         pass
 
     def s_Import(self, s):
-        pass
+        from . import builtins_model
+        for a in s.names:
+            nm = a.asname or a.name.split('.')[0]
+            mv = builtins_model.module_model(a.name.split('.')[0])
+            if mv is None:
+                mv = ModuleVal(a.name, _OpaqueModuleAttrs(a.name))
+            self.frames[-1].locals[nm] = mv
 
     def s_ImportFrom(self, s):
         pass
@@ -1709,7 +1742,21 @@ class Interp:
                 self.exec_block(s.finalbody)
 
     def s_With(self, s):
-        raise Unsupported('with statement')
+        """`with cm as x:` for context managers given as records with __enter__/__exit__ builtins (ghost resources)"""
+        entered = []
+        for item in s.items:
+            cm = self.eval(item.context_expr)
+            if not (isinstance(cm, SObj) and '__enter__' in cm.attrs and '__exit__' in cm.attrs):
+                raise Unsupported('with statement on an unmodelled context manager')
+            v = self.call(cm.attrs['__enter__'], [], {})
+            if item.optional_vars is not None:
+                self.assign_target(item.optional_vars, v)
+            entered.append(cm)
+        try:
+            self.exec_block(s.body)
+        finally:
+            for cm in reversed(entered):
+                self.call(cm.attrs['__exit__'], [None, None, None], {})
 
     def s_FunctionDef(self, s):
         self.frames[-1].locals[s.name] = FuncVal(self.frames[-1].mod, s, closure=self.frames[-1], cls=self.frames[-1].cls)
@@ -1801,6 +1848,19 @@ class Interp:
     def cut_loop(self, key, inv, s, it):
         from . import loops
         loops.cut_loop(self, key, inv, s, it)
+
+
+class _OpaqueModuleAttrs(dict):
+    """unmodelled module imported inside a function: its functions return an unspecified string (hostnames, dates, ...)"""
+    def __init__(self, name):
+        super().__init__()
+        self.name = name
+
+    def __contains__(self, name):
+        return True
+
+    def __getitem__(self, name):
+        return Builtin(lambda I, *a, **k: '<unspecified>', f'{self.name}.{name}')
 
 
 class _RepoModuleAttrs(dict):
